@@ -63,11 +63,14 @@ def m_drop_impl(ex, f, a): return UNIT
 @exact('Box::new', 'Rc::new', 'std::rc::Rc::new', 'Arc::new', 'std::sync::Arc::new')
 def m_box_new(ex, f, a): return mkbox(a[0])
 @exact('Box::new_uninit')
-def m_box_uninit(ex, f, a): return mkbox(None)
+def m_box_uninit(ex, f, a):
+    # layout followed by the `vec![..]` lowering:  (*box).1: ManuallyDrop<T>  .0: MaybeDangling<T>  .0: T
+    return mkbox(Agg('MaybeUninit', 0, [UNIT, Agg('ManuallyDrop', 0, [Agg('MaybeDangling', 0, [None])])]))
 @exact('std::boxed::box_assume_init_into_vec_unsafe')
 def m_box_into_vec(ex, f, a):
     arr = unbox(a[0])
-    if isinstance(arr, Agg) and arr.ty in ('ManuallyDrop', 'MaybeUninit'): arr = arr.fields[0]
+    while isinstance(arr, Agg) and arr.ty in ('ManuallyDrop', 'MaybeUninit', 'MaybeDangling'): arr = arr.fields[1] if arr.ty == 'MaybeUninit' else arr.fields[0]
+    if not (isinstance(arr, Agg) and arr.ty == 'array'): raise Unsupported('vec![] idiom: box content %r' % (arr,))
     return PyVec(list(arr.fields))
 @pattern(r'^<Box<.*> as (AsRef|Deref|DerefMut|Borrow|AsMut)(<.*>)?>::(as_ref|deref|deref_mut|borrow|as_mut)$')
 def m_box_deref(ex, f, a):
@@ -337,6 +340,13 @@ def m_from(ex, f, a):
     dst, src = (st, tr_arg) if m.group(2) == 'From' else (tr_arg, st)
     dstn = dst.strip()
     v = a[0]
+    if src.strip() == dstn: return v
+    if src.strip().startswith('impl ') or re.fullmatch(r'[A-Z]\w?', src.strip()):
+        # polymorphic MIR (generic caller): the conversion is decided by the run-time value
+        t = ex.deref(v)
+        if dstn.startswith('Option<'): return v if isinstance(t, (Agg, LazyEnum)) and getattr(t, 'ty', '') == 'Option' else some(v)
+        if dstn == 'String' and isinstance(t, Str): return Str(t.chars)
+        raise Unsupported('polymorphic conversion ' + f)
     if dstn in ('String',) :
         t = ex.deref(v)
         if isinstance(t, Str): return Str(t.chars)
@@ -476,7 +486,7 @@ def m_slice_to_vec(ex, f, a):
 @pattern(r'^core::slice::<impl \[.*\]>::contains$')
 def m_slice_contains(ex, f, a):
     it = _items(ex, a[0]); x = ex.deref(a[1])
-    return zor(*[veq(ex, y, x) if not isinstance(ex.deref(y), (Agg, LazyEnum)) or not isinstance(x, (Agg, LazyEnum)) else (zi(ex.disc(ex.deref(y))) == zi(ex.disc(x)) if not ex.deref(y).fields else veq(ex, y, x)) for y in it])
+    return zor(*[veq(ex, y, x) for y in it])
 @pattern(r'^core::slice::<impl \[.*\]>::split_first$')
 def m_split_first(ex, f, a):
     b = _items(ex, a[0])
